@@ -11,7 +11,7 @@ ID = 'C07'
 LEVEL = 'model_checking'
 RULE = ('every history (operation sequence) of depth d over the event alphabet {asserta/assertz of p(a) p(b) p(X) '
         'p(f(Y)) q(a,b) flag; retract of p(a) p(X) p(f(X)) q(X,Y) flag nosuch(X), retract(p(X)) run to exhaustion / '
-        'abandoned after the 1st / after the 2nd answer; retractall of p(a) p(_) flag nosuch(_); clear}, from 3 initial '
+        'abandoned after the 1st / after the 2nd answer; retractall of p(a) p(_) flag nosuch(_); patterns with a repeated variable q(X,X) and partially bound q(X,a) over q/2 facts; clear}, from 4 initial '
         'stores, in 3 dress-ups (Python API; compiled clauses; compiled clauses receiving the goal in a variable bound '
         'at run time). Each history is replayed on a fresh engine with the reference model (ordered lists, copy on '
         'assert) stepped alongside; after EVERY step the answers of the operation and the contents of p/1 q/2 flag/0 '
@@ -32,10 +32,14 @@ EVENTS = [
     ('retract', F('nosuch', X), 'all'),
     ('retractall', pa), ('retractall', F('p', ANON)), ('retractall', A('flag')), ('retractall', F('nosuch', ANON)),
     ('clear',),
+    # patterns in which one variable occurs twice (they match only facts whose arguments agree)
+    ('assert', 'z', F('q', a, a)), ('assert', 'a', F('q', b, a)),
+    ('retractall', F('q', X, X)), ('retract', F('q', X, X), 'all'), ('retractall', F('q', ANON, ('v', ('_', 2)))),
+    ('retract', F('q', X, a), 'all'),
 ]
 CORE = [0, 1, 2, 3, 8, 9, 10, 17, 6, 14]
 CORE8 = [0, 2, 3, 8, 9, 10, 11, 16]
-INITIAL = [[], [pa], [pa, pb, pa]]
+INITIAL = [[], [pa], [pa, pb, pa], [F('q', a, b), F('q', a, a), F('q', b, a), pa]]
 KEYS = [('p', 1), ('q', 2), ('flag', 0), ('nosuch', 1)]
 DRESS = ['api', 'compiled', 'goal-in-variable']
 
@@ -225,13 +229,17 @@ def describe(dress, init, trace):
 def plan(tier):
     sh = []
     if tier == 'quick':
-        specs = [('full', 3, DRESS), ('core', 4, DRESS)]
+        specs = [('full', 3, DRESS), ('core', 4, DRESS), ('qfocus', 4, DRESS)]
     else:
-        specs = [('full', 4, DRESS), ('core', 5, DRESS), ('core8', 6, ['api'])]
+        specs = [('full', 4, DRESS), ('core', 5, DRESS), ('core8', 6, ['api']), ('qfocus', 5, DRESS), ('all', 3, DRESS)]
     for alpha, depth, dresses in specs:
         for dress in dresses:
             for ii in range(len(INITIAL)):
-                if alpha == 'core8' and ii == 2:
+                if alpha == 'core8' and ii >= 2:
+                    continue
+                if alpha in ('full', 'core') and ii == 3:
+                    continue
+                if alpha == 'qfocus' and ii not in (0, 3):
                     continue
                 n = 16 if depth >= 4 else 4
                 for k in range(n):
@@ -240,7 +248,8 @@ def plan(tier):
 
 
 def alphabet(alpha):
-    return {'full': list(range(len(EVENTS))), 'core': CORE, 'core8': CORE8}[alpha]
+    return {'full': list(range(21)), 'core': CORE, 'core8': CORE8, 'qfocus': [5, 13, 20, 21, 22, 23, 24, 25, 26],
+            'all': list(range(len(EVENTS)))}[alpha]
 
 
 def run_shard(spec):
